@@ -3,6 +3,7 @@ package main
 import (
 	"fmt"
 	"go/token"
+	"go/types"
 	"sort"
 	"strings"
 
@@ -342,5 +343,205 @@ func checkRunLengthRunBound(c *Ctx) {
 	}
 	if total == 0 {
 		r.Bad("C15.R4", FuncID(root), "anchor", p.Pos(root.Pos()), "UNRESOLVED-ANCHOR: no scanning loop (a +1 counter compared with len of a slice) in the run-length encoder")
+	}
+}
+
+// ---------------- C15.R5 (round 4 seed C15-E): the LZW decoder's buffer holds pending output plus one phrase ----------------
+
+// checkLZWBufferRelation: the decoder expands a code right-to-left at the END of decoder.output and then copies the
+// phrase behind the d.o bytes that are pending at the start of the same array. A phrase is at most as long as the
+// code table (len(decoder.suffix)); output is flushed once d.o reaches a constant K. Nothing pending is overwritten
+// iff (largest pending count that is not flushed) + len(suffix) <= len(output). The three numbers are read from the
+// struct type and from the comparison of the field o with a constant; no code is evaluated.
+func checkLZWBufferRelation(c *Ctx) {
+	p, r := c.P, c.R
+	const pkgShort = "internal/filter/lzw"
+	sp := p.SSAPkg(pkgShort)
+	if sp == nil {
+		r.Bad("C15.R5", pkgShort, "anchor", "", "UNRESOLVED-ANCHOR: package not loaded")
+		return
+	}
+	tn, _ := sp.Pkg.Scope().Lookup("decoder").(*types.TypeName)
+	if tn == nil {
+		r.Bad("C15.R5", pkgShort+".decoder", "anchor", "", "UNRESOLVED-ANCHOR: type decoder not found")
+		return
+	}
+	st, _ := tn.Type().Underlying().(*types.Struct)
+	arrLen := func(name string) int64 {
+		if st == nil {
+			return -1
+		}
+		for i := 0; i < st.NumFields(); i++ {
+			if st.Field(i).Name() == name {
+				if a, ok := st.Field(i).Type().Underlying().(*types.Array); ok {
+					return a.Len()
+				}
+			}
+		}
+		return -1
+	}
+	N, S := arrLen("output"), arrLen("suffix")
+	if N <= 0 || S <= 0 {
+		r.Bad("C15.R5", pkgShort+".decoder", "anchor", "", "UNRESOLVED-ANCHOR: array fields output / suffix not found")
+		return
+	}
+	n := 0
+	for _, fn := range p.Funcs {
+		if fn.Pkg != sp {
+			continue
+		}
+		eachInstr(fn, func(_ *ssa.BasicBlock, _ int, i ssa.Instruction) {
+			bo, ok := i.(*ssa.BinOp)
+			if !ok {
+				return
+			}
+			isO := func(v ssa.Value) bool {
+				ld, ok := v.(*ssa.UnOp)
+				if !ok || ld.Op != token.MUL {
+					return false
+				}
+				fa, ok := ld.X.(*ssa.FieldAddr)
+				if !ok {
+					return false
+				}
+				f := structField(fa.X.Type(), fa.Field)
+				return f != nil && f.Name() == "o"
+			}
+			op := bo.Op
+			var k int64
+			switch {
+			case isO(bo.X):
+				kk, ok := c31ConstInt(bo.Y)
+				if !ok {
+					return
+				}
+				k = kk
+			case isO(bo.Y):
+				kk, ok := c31ConstInt(bo.X)
+				if !ok {
+					return
+				}
+				k = kk
+				op = mirrorOp(op)
+			default:
+				return
+			}
+			var pending int64 // largest value of o on the edge that does not flush
+			switch op {
+			case token.GEQ, token.LSS:
+				pending = k - 1
+			case token.GTR, token.LEQ:
+				pending = k
+			default:
+				return
+			}
+			n++
+			construct := fmt.Sprintf("flush threshold#%d", n)
+			if pending+S <= N {
+				r.OK("C15.R5", FuncID(fn), construct, p.Pos(bo.Pos()), fmt.Sprintf("up to %d pending bytes + a phrase of up to %d bytes fit the %d-byte buffer", pending, S, N), true)
+			} else {
+				r.Bad("C15.R5", FuncID(fn), construct, p.Pos(bo.Pos()), fmt.Sprintf("up to %d bytes stay pending in decoder.output while a phrase of up to %d bytes is expanded at the end of the same %d-byte array: a long phrase overwrites pending output and is cut short — highly repetitive data (megabytes of one byte value) decodes to fewer bytes than were encoded, without an error", pending, S, N))
+			}
+		})
+	}
+	if n == 0 {
+		r.Bad("C15.R5", pkgShort+".decoder", "flush threshold", "", "UNDECIDED: no comparison of decoder.o with a constant found")
+	}
+}
+
+// ---------------- C15.R6 (round 4 seed C15-F): Encode skips only a stream that was never decoded ----------------
+
+// checkEncodeSkipsOnlyUndecoded: StreamDict.Encode turns Content into Raw. The one case in which it may succeed
+// without storing Raw is the stream that was never decoded — Content is nil; an empty, non-nil Content is an
+// edited stream whose new encoding is the encoding of nothing. So every successful return is either after a store
+// into the receiver's Raw field on every path, or behind the nil test of the Content field.
+func checkEncodeSkipsOnlyUndecoded(c *Ctx) {
+	p, r := c.P, c.R
+	const fid = "pkg/pdfcpu/types.(*StreamDict).Encode"
+	fn := p.Func(fid)
+	if fn == nil {
+		r.Bad("C15.R6", fid, "anchor", "", "UNRESOLVED-ANCHOR")
+		return
+	}
+	isField := func(v ssa.Value, name string) bool {
+		return strings.HasSuffix(fieldPath(v), name)
+	}
+	// edges on which Content == nil
+	var nilEdges []Edge
+	eachInstr(fn, func(_ *ssa.BasicBlock, _ int, i ssa.Instruction) {
+		bo, ok := i.(*ssa.BinOp)
+		if !ok || (bo.Op != token.EQL && bo.Op != token.NEQ) {
+			return
+		}
+		var other ssa.Value
+		switch {
+		case isNilConst(bo.Y):
+			other = bo.X
+		case isNilConst(bo.X):
+			other = bo.Y
+		default:
+			return
+		}
+		if isField(other, "Content") {
+			nilEdges = append(nilEdges, condEdges(bo, bo.Op == token.EQL)...)
+		}
+	})
+	// blocks reachable from the entry without a store into Raw
+	storesRaw := func(b *ssa.BasicBlock) bool {
+		for _, in := range b.Instrs {
+			if st, ok := in.(*ssa.Store); ok {
+				if fa, ok := st.Addr.(*ssa.FieldAddr); ok {
+					if f := structField(fa.X.Type(), fa.Field); f != nil && f.Name() == "Raw" {
+						return true
+					}
+				}
+			}
+		}
+		return false
+	}
+	free := map[*ssa.BasicBlock]bool{}
+	work := []*ssa.BasicBlock{fn.Blocks[0]}
+	free[fn.Blocks[0]] = true
+	for len(work) > 0 {
+		b := work[len(work)-1]
+		work = work[:len(work)-1]
+		if storesRaw(b) {
+			continue
+		}
+		for _, s := range b.Succs {
+			if !free[s] {
+				free[s] = true
+				work = append(work, s)
+			}
+		}
+	}
+	n := 0
+	for _, ret := range returnsOf(fn) {
+		if k, ok := returnErrKind(ret); !ok || k == errNonNil {
+			continue
+		}
+		n++
+		construct := fmt.Sprintf("successful return#%d", n)
+		pos := posOrFn(p, ret, fn)
+		b := ret.Block()
+		switch {
+		case !free[b] || storesRaw(b):
+			r.OK("C15.R6", fid, construct, pos, "Raw is stored on every path to this return", true)
+		default:
+			behind := false
+			for _, e := range nilEdges {
+				if edgeDominates(e, b) {
+					behind = true
+				}
+			}
+			if behind {
+				r.OK("C15.R6", fid, construct, pos, "nothing is encoded only behind Content == nil (never decoded)", true)
+			} else {
+				r.Bad("C15.R6", fid, construct, pos, "Encode can succeed without storing Raw on a path that is not behind Content == nil: a stream that was decoded and then emptied (or otherwise changed) keeps the old Raw and /Length, so the written object decodes to the old bytes")
+			}
+		}
+	}
+	if n == 0 {
+		r.Bad("C15.R6", fid, "successful returns", p.Pos(fn.Pos()), "UNDECIDED: no successful return")
 	}
 }
